@@ -41,8 +41,11 @@ Lattice ==
      lk \in BOOLEAN, pd \in {0, 1}}
 OneConfig == [nc |-> 2, npi |-> 3, capn |-> 2, layers |-> 2, strat |-> "fixed", narity |-> 2, q |-> 2, nfinal |-> 2,
               ncols |-> 2, naux |-> 2, nquot |-> 4, lookups |-> TRUE, nsimz |-> 1, padcaps |-> 1, padfinal |-> 2]
+\* sub-lattice of the quick tier
+LatticeQuick == {c \in Lattice : c.layers # 1 /\ c.strat # "minsize" /\ c.capn = 2}
 Configs == IF ConfigSet = "env" THEN {c : c \in Range(ndJsonDeserialize(IOEnv.CFGS))}
-           ELSE IF ConfigSet = "one" THEN {OneConfig} ELSE Lattice
+           ELSE IF ConfigSet = "one" THEN {OneConfig}
+           ELSE IF ConfigSet = "quick" THEN LatticeQuick ELSE Lattice
 
 StratLen(cfg) == IF cfg.strat = "fixed" THEN 1 + cfg.narity ELSE IF cfg.strat = "cab" THEN 3 ELSE 2
 CapLen(cfg) == cfg.capn * H
